@@ -195,6 +195,10 @@ class Run:
     def sample(self, where):
         proc = self.proc
         obs = (proc.state.value, proc.paused, proc.has_terminated(), proc.future().done())
+        if obs[2]:
+            # terminal fingerprint through public accessors: any later change of the recorded outcome is a change of state
+            obs = obs + (describe_exc(proc.exception()), try_call(proc.result)[1] if obs[0] == 'finished' else None,
+                         try_call(proc.killed_msg)[1] if obs[0] == 'killed' else None)
         if obs != self._last_obs:
             self._last_obs = obs
             self.rec.ev('obs', where, *obs)
@@ -313,7 +317,8 @@ class Run:
         return self
 
     def _make_class(self):
-        return programs.program_class(self.case['program'])
+        base = programs.ProgBaseReq if self.case.get('req_output') else None
+        return programs.program_class(self.case['program'], base)
 
     def _construct(self, cls, loop):
         return cls(loop=loop)
